@@ -85,7 +85,7 @@ func Monitor(spec *Spec, tr *Trace) []Finding {
 					if h == nil {
 						continue
 					}
-					if R := m.Retries[t]; len(h.enters) > R+1 {
+					if R := RetriesFor(spec, m, gi, t); len(h.enters) > R+1 {
 						add("C13", "task t%d entered %d times with %d retries configured (run cut off by the watchdog: %s)", t, len(h.enters), R, tr.Timeout)
 					}
 					okSeq := map[int]int{}
@@ -176,7 +176,7 @@ func Monitor(spec *Spec, tr *Trace) []Finding {
 			if h == nil {
 				continue
 			}
-			R := m.Retries[t]
+			R := RetriesFor(spec, m, gi, t)
 			if len(h.enters) > R+1 {
 				add("C13", "task t%d entered %d times with %d retries configured", t, len(h.enters), R)
 			}
@@ -252,6 +252,9 @@ func Monitor(spec *Spec, tr *Trace) []Finding {
 			for _, ee := range tr.ErrEntries[gi] {
 				if ee.IsTask == ft {
 					found = true
+					if spec.AttemptErrs && hist[ft] != nil && ee.Attempt != len(hist[ft].enters) {
+						add("C14", "task t%d failed in its final attempt %d, but the reported entry wraps the error returned by attempt %d (%q)", ft, len(hist[ft].enters), ee.Attempt, ee.Text)
+					}
 				}
 			}
 			if !tr.ErrAsErrors[gi] {
@@ -275,8 +278,17 @@ func Monitor(spec *Spec, tr *Trace) []Finding {
 					continue
 				}
 				for _, t := range m.Tasks {
-					if strings.Contains(ee.Text, ":t"+strconv.Itoa(t)+TaskSuffix(spec)+" ") {
-						reported[t]++
+					if strings.Contains(ee.Text, ":"+TaskName(spec, t)+" error:") {
+						// with colon IDs one ID can be the tail of another (`t9` of `t1:t9`): the longest ID that fits names the task
+						longer := false
+						for _, u := range m.Tasks {
+							if u != t && len(TaskName(spec, u)) > len(TaskName(spec, t)) && strings.HasSuffix(TaskName(spec, u), ":"+TaskName(spec, t)) && strings.Contains(ee.Text, ":"+TaskName(spec, u)+" error:") {
+								longer = true
+							}
+						}
+						if !longer {
+							reported[t]++
+						}
 					}
 				}
 			}
@@ -405,8 +417,8 @@ func Monitor(spec *Spec, tr *Trace) []Finding {
 				}
 				for _, t := range m.Tasks {
 					for _, d := range m.Deps[t] {
-						pt, ok1 := pos["t"+strconv.Itoa(t)+TaskSuffix(spec)]
-						pd, ok2 := pos["t"+strconv.Itoa(d)+TaskSuffix(spec)]
+						pt, ok1 := pos[TaskName(spec, t)]
+						pd, ok2 := pos[TaskName(spec, d)]
 						if ok1 && ok2 && pd > pt {
 							add("C16", "DepthFirstSort puts t%d before its dependency t%d: %v", t, d, tr.SortIDs)
 						}
@@ -615,7 +627,7 @@ func Monitor(spec *Spec, tr *Trace) []Finding {
 		}
 		// every finished attempt produced its block
 		for _, e := range tr.Events {
-			if e.Kind == EvExit && !seen[key{e.Graph, e.Task, e.Attempt}] {
+			if e.Kind == EvExit && !seen[key{e.Graph, e.Task, e.Attempt}] && spec.QuietMask&(1<<uint(e.Task)) == 0 {
 				if rs, ok := runReturn[e.Graph]; ok && e.Seq < rs {
 					add("C15", "output of g%d:t%d attempt %d never reached the writer", e.Graph, e.Task, e.Attempt)
 				}
